@@ -296,6 +296,13 @@ impl<T: Smp> Runner<T> {
         Ok(Self::new(cfg, Box::new(r), sig))
     }
 
+    /// the same instance driven through the object-safe wrapper (`Box<dyn VecResampler<T>>`); reset and
+    /// set_chunk_size are not part of that trait
+    pub fn fresh_boxed(cfg: &Cfg, sig: Sig) -> Result<Self, String> {
+        let r = AnyRes::<T>::build(cfg).map_err(|e| format!("{}", e))?;
+        Ok(Self::new(cfg, Box::new(Boxed(r.boxed())), sig))
+    }
+
     fn find(&mut self, prop: &'static str, clause: &'static str, detail: String) {
         if self.findings.len() < 64 {
             self.findings.push(Finding { prop, clause, detail, step: self.nstep });
@@ -887,6 +894,10 @@ pub struct BadCall {
     pub mask: Option<Vec<bool>>,
     /// through process() instead of process_into_buffer (input / mask shapes only)
     pub via_process: bool,
+    /// through the partial entry points (mask-length and output shapes only; a short or missing input is
+    /// legal there): 1 = process_partial(Some(half the frames)), 2 = process_partial(None),
+    /// 3 = process_partial_into_buffer(Some(..)), 4 = process_partial_into_buffer(None); 0 = not
+    pub partial: u8,
 }
 
 impl BadCall {
@@ -895,6 +906,7 @@ impl BadCall {
             .with("op", J::s("malformed"))
             .with("shape", J::s(&format!("{:?}", self.bad)))
             .with("via_process", J::b(self.via_process))
+            .with("via_partial", J::s(["no", "process_partial(Some)", "process_partial(None)", "process_partial_into_buffer(Some)", "process_partial_into_buffer(None)"][self.partial.min(4) as usize]))
             .with("mask", self.mask.as_ref().map(|m| J::Arr(m.iter().map(|b| J::b(*b)).collect())).unwrap_or(J::Null))
     }
 }
@@ -927,7 +939,16 @@ pub fn gen_bad(rng: &mut Rng, nch: usize) -> BadCall {
     } else {
         None
     };
-    BadCall { bad, mask, via_process }
+    let partial = if via_process || !rng.chance(0.25) {
+        0
+    } else {
+        match bad {
+            Bad::MaskLen(_) => rng.ui(1, 4) as u8,
+            Bad::OutChannels(_) | Bad::OutShort { .. } => rng.ui(3, 4) as u8,
+            _ => 0,
+        }
+    };
+    BadCall { bad, mask, via_process, partial }
 }
 
 /// Outcome of a malformed call: list of C13 clause violations (empty = behaved as documented),
@@ -973,14 +994,42 @@ pub fn do_bad_call<T: Smp>(run: &mut Runner<T>, bc: &BadCall) -> (bool, Vec<(&'s
             expect = format!("WrongNumberOfMaskChannels{{expected:{},actual:{}}}", nch, n);
         }
     }
+    let pm = bc.partial;
+    if pm == 1 || pm == 3 {
+        // a partial input: half the frames, but not none (an empty active channel is itself rejected)
+        for l in in_len.iter_mut() {
+            *l = (*l / 2).max((*l).min(1));
+        }
+    }
     let wi: Vec<Vec<T>> = (0..n_in_ch).map(|ch| (0..in_len[ch]).map(|j| run.sample(ch % nch.max(1), run.pos + j as u64)).collect()).collect();
     let mut wo: Vec<Vec<T>> = (0..n_out_ch).map(|ch| vec![T::sentinel(k); out_len[ch]]).collect();
     let m = mask.as_deref();
     let drv = &mut run.drv;
-    let via = bc.via_process;
+    let via = bc.via_process || pm == 1 || pm == 2;
+    let entry = match pm {
+        1 => " via process_partial(Some)",
+        2 => " via process_partial(None)",
+        3 => " via process_partial_into_buffer(Some)",
+        4 => " via process_partial_into_buffer(None)",
+        _ => {
+            if via {
+                " via process()"
+            } else {
+                ""
+            }
+        }
+    };
     let mut allocs = AllocReport::default();
     let r = crate::mon::guarded(|| {
-        if via {
+        if pm == 1 {
+            drv.pp(Some(&wi), m).map(|v| (0usize, v.first().map(|c| c.len()).unwrap_or(0)))
+        } else if pm == 2 {
+            drv.pp(None, m).map(|v| (0usize, v.first().map(|c| c.len()).unwrap_or(0)))
+        } else if pm == 3 {
+            drv.ppib(Some(&wi), &mut wo, m)
+        } else if pm == 4 {
+            drv.ppib(None, &mut wo, m)
+        } else if via {
             drv.proc(&wi, m).map(|v| (0usize, v.first().map(|c| c.len()).unwrap_or(0)))
         } else {
             alloc::arm();
@@ -994,12 +1043,12 @@ pub fn do_bad_call<T: Smp>(run: &mut Runner<T>, bc: &BadCall) -> (bool, Vec<(&'s
         v.push(("alloc_on_error_path", format!("{:?}: {} allocator event(s) during the failing process_into_buffer call, first: {} of {} bytes", bc.bad, allocs.events, allocs.kind_name(), allocs.first_size)));
     }
     match r {
-        Err(p) => v.push(("panic_on_malformed", format!("{:?}{}: panicked: {}", bc.bad, if via { " via process()" } else { "" }, p))),
-        Ok(Ok((i, o))) => v.push(("ok_on_malformed", format!("{:?}{}: returned Ok(({},{})), expected Err {}", bc.bad, if via { " via process()" } else { "" }, i, o, expect))),
+        Err(p) => v.push(("panic_on_malformed", format!("{:?}{}: panicked: {}", bc.bad, entry, p))),
+        Ok(Ok((i, o))) => v.push(("ok_on_malformed", format!("{:?}{}: returned Ok(({},{})), expected Err {}", bc.bad, entry, i, o, expect))),
         Ok(Err(e)) => {
             let got = err_repr(&e);
             if got != expect {
-                v.push(("wrong_error", format!("{:?}{}: returned {}, expected {}", bc.bad, if via { " via process()" } else { "" }, got, expect)));
+                v.push(("wrong_error", format!("{:?}{}: returned {}, expected {}", bc.bad, entry, got, expect)));
             }
         }
     }
